@@ -4,7 +4,7 @@ against each one on whichever test lane is idle. Loops until /tmp/lead/dispatch.
 import glob, json, os, subprocess, time
 
 ROOT = "/verif"
-LANES = ["lane2", "lane3", "repo"]
+LANES = ["lane2", "lane3", "lane4", "repo"]
 busy = {}  # lane -> (Popen, sid)
 done_or_running = set(open("/tmp/lead/dispatch.skip").read().split()) if os.path.exists("/tmp/lead/dispatch.skip") else set()
 
